@@ -322,6 +322,8 @@ func c07(p *core.Program, r *core.Report) {
 		return false, ""
 	})
 
+	decodeDestinationFreshRule(p, r, "decode-destination-fresh")
+
 	// ---- rule 3b: the first element of a decoded array is read only where the array is known to be non-empty
 	const r3b = "first-element-guarded"
 	r.Rule(r3b, "in package geojson every read of element 0 of a slice (x[0], also of a nested slice x[0][0]) is unreachable once the CFG edges that imply len(x) > 0 are deleted: the arrays come from the document, `[]` and `null` are valid JSON at every nesting level, and an unguarded x[0] turns them into an index-out-of-range panic instead of a decoded (empty) geometry or an error", 1)
@@ -486,4 +488,102 @@ func c07(p *core.Program, r *core.Report) {
 func samePkg2(c *ssa.Call, rel string) bool {
 	f := c.Call.StaticCallee()
 	return f != nil && core.FnPkgPath(f) == mod+"/"+rel
+}
+
+// staleDestinations: decode calls inside a loop whose destination variable lives outside that loop and is not
+// reset to a zero value inside it before the call. A decode call is encoding/json.Unmarshal (destination = second
+// argument), a (*json.Decoder).Decode, or a method named UnmarshalJSON / UnmarshalText (destination = receiver).
+func staleDestinations(fn *ssa.Function) (sites int, bad []ssa.CallInstruction) {
+	if len(fn.Blocks) == 0 {
+		return 0, nil
+	}
+	loops := naturalLoops(fn)
+	if len(loops) == 0 {
+		return 0, nil
+	}
+	for _, c := range eng.Calls(fn) {
+		var dst ssa.Value
+		args := c.Common().Args
+		if o := eng.CalleeObj(c); o != nil {
+			switch {
+			case o.Pkg() != nil && o.Pkg().Path() == "encoding/json" && o.Name() == "Unmarshal" && len(args) == 2:
+				dst = args[1]
+			case o.Pkg() != nil && o.Pkg().Path() == "encoding/json" && o.Name() == "Decode" && len(args) == 2:
+				dst = args[1]
+			case (o.Name() == "UnmarshalJSON" || o.Name() == "UnmarshalText") && len(args) >= 1:
+				dst = args[0]
+			}
+		}
+		if dst == nil {
+			continue
+		}
+		if mi, ok := dst.(*ssa.MakeInterface); ok {
+			dst = mi.X
+		}
+		// the variable behind the pointer (a field of it counts as the variable)
+		root, _ := fieldRoot(dst)
+		cell, ok := root.(*ssa.Alloc)
+		if !ok {
+			continue
+		}
+		inLoop := false
+		for h, body := range loops {
+			if !body[c.Block()] {
+				continue
+			}
+			inLoop = true
+			if body[cell.Block()] {
+				continue // declared inside this loop: a new variable on every iteration
+			}
+			// reset inside the loop before the call: *cell = T{} (a store of a zero constant or of a fresh local)
+			reset := false
+			for _, rf := range eng.Referrers(cell) {
+				st, isSt := rf.(*ssa.Store)
+				if !isSt || st.Addr != ssa.Value(cell) || !body[st.Block()] {
+					continue
+				}
+				if !(st.Block() == c.Block() && eng.InstrIndex(st) < eng.InstrIndex(c) || st.Block() != c.Block() && st.Block().Dominates(c.Block())) {
+					continue
+				}
+				if k, isK := st.Val.(*ssa.Const); isK && k.Value == nil {
+					reset = true
+				}
+				if ld, isLd := st.Val.(*ssa.UnOp); isLd && ld.Op == token.MUL {
+					if tmp, isA := ld.X.(*ssa.Alloc); isA && body[tmp.Block()] {
+						reset = true // T{...} built in the loop
+					}
+				}
+			}
+			_ = h
+			if !reset {
+				bad = append(bad, c)
+			}
+		}
+		if inLoop {
+			sites++
+		}
+	}
+	return sites, bad
+}
+
+// decodeDestinationFreshRule (C07): every element decoded in a loop gets a destination of its own.
+func decodeDestinationFreshRule(p *core.Program, r *core.Report, rule string) {
+	r.Rule(rule, "in package geojson a decode call (json.Unmarshal, Decoder.Decode, an UnmarshalJSON method) that sits in a loop writes into a variable declared inside that loop, or into one that the loop resets to its zero value before the call: the Feature decoder assigns id and bounding box only when the member is present, so a destination carried over from the previous element keeps that element's id and bbox", 0)
+	total := 0
+	for _, fn := range pkgFuncs(p, "encoding/geojson") {
+		sites, bad := staleDestinations(fn)
+		total += sites
+		if sites == 0 {
+			continue
+		}
+		why := ""
+		if len(bad) > 0 {
+			why = fmt.Sprintf("the decode call at %s writes into a variable that outlives the loop iteration and is not reset: members absent from this element keep the previous element's values", p.Pos(bad[0].Pos()))
+		}
+		r.Check(len(bad) == 0, rule, short(fn), p.Pos(fn.Pos()), true, fmt.Sprintf("%d decode calls in loops, each with a fresh destination", sites), why)
+	}
+	if total == 0 {
+		r.OK(rule, "encoding/geojson/no-decode-in-loop", "encoding/geojson/geojson.go", true, "no decode call of the package sits in a loop (the element decoders are reached through encoding/json, which allocates each element)")
+	}
+	r.Count("decode_calls_in_loops", total)
 }
